@@ -249,18 +249,21 @@ pub const NON_ASCII: [&str; 9] = ["\u{80}", "\u{a0}", "\u{e9}", "\u{7ff}", "\u{2
 /// non-ASCII text for a decoder of ASCII alphabets (hex, bech32, base58, numbers): a valid text with one character replaced /
 /// appended / prepended by multi-byte UTF-8 (2, 3 and 4 bytes, NBSP, full-width digit), random unicode strings, leading '1's
 /// followed by non-ASCII
-pub fn mutate_nonascii(s: &str, rng: &mut Rng, out: &mut Vec<(String, String)>) {
+pub fn mutate_nonascii(s: &str, rng: &mut Rng, full: bool, out: &mut Vec<(String, String)>) {
     let cs: Vec<char> = s.chars().collect(); let n = cs.len();
+    let mut all: Vec<(String, String)> = Vec::new();
     for ch in NON_ASCII.iter() {
-        out.push(("u-append".into(), format!("{}{}", s, ch))); out.push(("u-prepend".into(), format!("{}{}", ch, s)));
-        out.push(("u-alone".into(), ch.to_string())); out.push(("u-ones".into(), format!("{}{}", "1".repeat(1 + rng.below(3) as usize), ch)));
-        if n > 0 { for k in [0usize, n / 2, n - 1, rng.below(n as u64) as usize] { let mut t: Vec<char> = cs.clone(); t[k] = ch.chars().next().unwrap(); out.push(("u-replace".into(), t.iter().collect())); } }
+        all.push(("u-append".into(), format!("{}{}", s, ch))); all.push(("u-prepend".into(), format!("{}{}", ch, s)));
+        all.push(("u-alone".into(), ch.to_string())); all.push(("u-ones".into(), format!("{}{}", "1".repeat(1 + rng.below(3) as usize), ch)));
+        if n > 0 { for k in [0usize, n / 2, n - 1, rng.below(n as u64) as usize] { let mut t: Vec<char> = cs.clone(); t[k] = ch.chars().next().unwrap(); all.push(("u-replace".into(), t.iter().collect())); } }
     }
-    for _ in 0..4 { let len = 1 + rng.below(20) as usize; let t: String = (0..len).map(|_| { loop { let c = rng.below(0x11_0000) as u32; if let Some(ch) = char::from_u32(c) { if c >= 0x80 || rng.chance(1, 4) { return ch; } } } }).collect(); out.push(("u-random".into(), t)); }
+    for _ in 0..4 { let len = 1 + rng.below(20) as usize; let t: String = (0..len).map(|_| { loop { let c = rng.below(0x11_0000) as u32; if let Some(ch) = char::from_u32(c) { if c >= 0x80 || rng.chance(1, 4) { return ch; } } } }).collect(); all.push(("u-random".into(), t)); }
+    // every variant for the directed streams, a seeded fifth of them elsewhere (the sweep has every character alone)
+    for x in all { if full || rng.chance(1, 5) { out.push(x); } }
 }
 
 pub fn mutate_text(s: &str, rng: &mut Rng, out: &mut Vec<(String, String)>) {
-    mutate_nonascii(s, rng, out);
+    mutate_nonascii(s, rng, false, out);
     let cs: Vec<char> = s.chars().collect(); let n = cs.len();
     let sub = |a: usize, b: usize| -> String { cs[a..b].iter().collect() };
     out.push(("t-empty".into(), String::new()));
@@ -501,7 +504,7 @@ fn targeted(rng: &mut Rng, cases: &mut Vec<String>) {
         }
     }
     // base58 text: a valid address with characters replaced / inserted / appended (ASCII outside the alphabet, non-ASCII)
-    for _ in 0..3 { let v = byron_valid(rng); let t = base58_encode(&v); let mut tm = Vec::new(); mutate_text(&t, rng, &mut tm);
+    for _ in 0..3 { let v = byron_valid(rng); let t = base58_encode(&v); let mut tm = Vec::new(); mutate_nonascii(&t, rng, true, &mut tm); mutate_text(&t, rng, &mut tm);
         push(format!("fn b58 {} {} b58-valid", thex(&t), hex_or_dash(&v)));
         for (l, m) in tm { push(format!("fn b58 {} {}", thex(&m), l)); } }
     // Byron attributes: contents of the protocol-magic / derivation-path byte strings (crc-valid envelope)
